@@ -184,8 +184,12 @@ class Environment:
         Timeout: when Timeout is created
         Process: when send raise StopIteration (the coroutine finish execution)
         """
-        heappush(self._queue,
-                 (self._now + delay, priority, next(self._eid), event))
+        at = self._now + delay
+        if at < self._now and not delay < 0:
+            # an integer clock beyond 2**53 plus a float delay is rounded to a
+            # float that may lie below the clock: nothing is due in the past
+            at = self._now
+        heappush(self._queue, (at, priority, next(self._eid), event))
 
     def peek(self) -> SimTime:
         """Get the time of the next scheduled event.
